@@ -24,6 +24,7 @@ func init() {
 			{Name: "reload", Pkg: "./pkg/station/lib", Run: "^TestVerifC06ReloadConsistency$", Drivers: []string{"lib"}, Exports: []string{"cdtls"}, Race: true, TimeoutQ: 10 * time.Minute, TimeoutT: 40 * time.Minute,
 				RaceFilter: func(r RaceReport) bool { return r.Has("station/lib.") }},
 			{Name: "reloaddiff", Pkg: "./pkg/station/lib", Run: "^TestVerifC06ReloadDifferential$", Drivers: []string{"lib"}, Exports: []string{"cdtls"}, TimeoutQ: 10 * time.Minute, TimeoutT: 40 * time.Minute},
+			{Name: "reloadrace", Pkg: "./pkg/station/lib", Run: "^TestVerifC06ReloadQuietPoint$", Drivers: []string{"lib"}, Exports: []string{"cdtls"}, TimeoutQ: 10 * time.Minute, TimeoutT: 40 * time.Minute},
 			{Name: "e2e", Pkg: "./pkg/station/lib", Run: "^TestVerifC06EndToEnd$", Drivers: []string{"lib"}, Exports: []string{"cdtls"}, TimeoutQ: 10 * time.Minute, TimeoutT: 40 * time.Minute},
 		},
 	})
